@@ -482,6 +482,12 @@ def run_case(case, ctx):
         if not _close(float(r_f.score), float(ref.score)):
             return fail({"what": "FDTW score differs from the DTW score",
                          "fdtw": float(r_f.score), "dtw": float(ref.score)}, p)
+        # aliasing: the matchings returned so far belong to the caller, who moves them, re-times them, gives them a
+        # feature; the two tracks (matched again for the next exponent and for the Frechet front ends) must not follow
+        if case.get("idx", 0) % 3 == 0:
+            for res_ in (r_ab, r_ba, r_f):
+                M.scribble(res_)
+            cls.add("returned_matchings_modified_by_the_caller")
 
     # --- discrete Frechet front ends (p is forced to infinity by the mode)
     optf = dp_optimum(D, "inf")
@@ -578,7 +584,7 @@ def classify(case, witness):
 # floors for the call-history workloads added in session 3 (a run in which they were silently skipped is inconclusive)
 _floors_base = floors
 _FLOORS_EXTRA = {'classes': {'edited_in_place_history': 10000, 'rematch_history': 10000, 'plot_option': 300, 'after_requests_that_failed': 5000,
-                             'exponent_given_as_numpy_scalar': 5000, 'tracks_of_hundreds_of_observations': 10}}
+                             'exponent_given_as_numpy_scalar': 5000, 'returned_matchings_modified_by_the_caller': 5000, 'tracks_of_hundreds_of_observations': 10}}
 
 
 def floors(tier):
